@@ -195,6 +195,10 @@ func (g *gen) forcedLine(slot string) bool {
 // ---------------------------------------------------------------- separators
 
 func (g *gen) ws() string {
+	// round 4: every rune the scanner's isWhiteSpace accepts on a line (form feed, vertical tab, carriage return too)
+	if g.r.Chance(1, 40) {
+		return g.r.PickS("\f", "\v", " \f ", "\v ", "\r", " \r")
+	}
 	switch g.r.Intn(10) {
 	case 0:
 		return "  "
@@ -942,13 +946,14 @@ func (g *gen) lexSoup() []string {
 			b.WriteString(g.lexAtom())
 			b.WriteString(g.r.PickS(" ", " ", "", "", "\n", "\t", " \n ", "\r\n", "\f", "\v"))
 		}
-		c := b.String()
-		if strings.Contains(c, "/") {
-			// a form feed / vertical tab / tab behind `//` would be part of a line comment: that is the known class of
-			// control characters in comments (tabwriter cells), not a scanner matter
-			c = strings.NewReplacer("\f", " ", "\v", " ", "\t", " ").Replace(c)
+		chunks = append(chunks, b.String())
+	}
+	if strings.Contains(strings.Join(chunks, ""), "/") {
+		// a form feed / vertical tab / tab behind `//` (also in a later chunk) would be part of a line comment: that is the
+		// known class of control characters in comments (tabwriter cells), not a scanner matter
+		for i := range chunks {
+			chunks[i] = strings.NewReplacer("\f", " ", "\v", " ", "\t", " ").Replace(chunks[i])
 		}
-		chunks = append(chunks, c)
 	}
 	return chunks
 }
